@@ -1,5 +1,5 @@
 (* Sem/SchemaRun.v — evaluation harness for C02 cases. *)
-From GS Require Import Base.Str Base.Json Sem.Schema.
+From GS Require Import Base.Str Base.Json Sem.Schema Sem.PropCount.
 
 Record mcase := { mc_schema : schema; mc_doc : json; mc_gen : bool; mc_ref : bool }.
 
@@ -27,3 +27,21 @@ Fixpoint run_rt_from (i : nat) (cs : list rtcase) : list nat :=
   | c :: r => if judge_rt c then run_rt_from (S i) r else i :: run_rt_from (S i) r
   end.
 Definition run_rt (cs : list rtcase) := run_rt_from 0 cs.
+
+(* C02 cases with minProperties / maxProperties on an object of the fragment (Sem/PropCount.v) *)
+Record pcase := { pc_schema : schema; pc_min : option Z; pc_max : option Z; pc_doc : json; pc_gen : bool; pc_ref : bool }.
+Definition judge_pc (c : pcase) : list nat :=
+  match pc_schema c with
+  | SObj ps =>
+      let d := pc_doc c in
+      let refv (x : json) := ref_valid (SObj ps) x && ref_counts (pc_min c) (pc_max c) x in
+      (if Bool.eqb (gen_accepts (SObj ps) d && gen_counts ps (pc_min c) (pc_max c) d) (pc_gen c) then [] else [1]) ++
+      (if Bool.eqb (refv (erase (SObj ps) d)) (pc_ref c) || Bool.eqb (refv d) (pc_ref c) then [] else [2])
+  | _ => [3]
+  end.
+Fixpoint run_pc_from (i : nat) (cs : list pcase) : list (nat * list nat) :=
+  match cs with
+  | [] => []
+  | c :: r => match judge_pc c with [] => run_pc_from (S i) r | l => (5000 + i, l) :: run_pc_from (S i) r end
+  end.
+Definition run_pc (cs : list pcase) := run_pc_from 0 cs.
